@@ -126,3 +126,58 @@ package mcp
 //@   calls toolInstanceStop requires [C20:gate_and_bind:instance_stop] accessOK(s, name) && name == "instance_stop"
 //@   calls toolInstanceReload requires [C20:gate_and_bind:instance_reload] accessOK(s, name) && name == "instance_reload"
 //@   ensures [C20:one_audit_per_mutating_call] audits == ite(name in MUTATING, old(audits) + 1, old(audits))
+
+// ---- C20: config-writing tools are confined to the configured path and to compiling content ----
+
+//@ func (*Server).resolveConfigPath
+//@   requires s != nil
+//@   ensures [C20:only_the_configured_path] result1 == nil ==> result0 == trim(s.ConfigPath) && result0 != ""
+//@   ensures [C20:error_names_no_path] result1 != nil ==> result0 == ""
+
+//@ func (*Server).resolvePIDFilePath
+//@   requires s != nil
+//@   ensures [C20:only_the_configured_pid_file] result1 == nil ==> result0 == trim(s.PIDFilePath) && result0 != ""
+//@   ensures [C20:error_names_no_path] result1 != nil ==> result0 == ""
+
+//@ func syncDir
+//@   modifies dirSynced, tmpSynced, tmpClosed
+//@   ensures [temp_state_untouched] tmpSynced == old(tmpSynced) || tmpFile == nil
+//@ func syncDir$1
+//@   modifies tmpClosed
+//@ func writeFileAtomic$1
+//@   modifies tmpClosed, tmpRemoved
+
+//@ func writeFileAtomic
+//@   modifies tmpFile, tmpWritten, tmpSynced, tmpClosed, tmpRemoved, renames, renamedFrom, renamedTo, renamedContent, dirSynced
+//@   calls os.Rename requires [C20:rename_only_a_written_synced_closed_temp_onto_the_given_path] tmpWritten == data && tmpSynced && tmpClosed && arg0 == ext("os.(*File).Name", tmpFile) && arg1 == trim(path) && tmpFile != nil
+//@   ensures [C20:at_most_one_rename_and_only_onto_path] renames == old(renames) || (renames == old(renames) + 1 && renamedTo == trim(path) && renamedContent == data)
+//@   ensures [C20:nil_means_replaced_with_exactly_data] result == nil ==> renames == old(renames) + 1
+//@   ensures [C20:target_never_written_directly] directWrites == old(directWrites)
+
+//@ func rollbackConfigFile
+//@   modifies tmpFile, tmpWritten, tmpSynced, tmpClosed, tmpRemoved, renames, renamedFrom, renamedTo, renamedContent, dirSynced
+//@   calls os.Remove requires [C20:rollback_removes_only_the_given_path] arg0 == p && !existed
+//@   ensures [C20:rollback_writes_only_previous_onto_p] renames == old(renames) || (existed && renames == old(renames) + 1 && renamedTo == trim(p) && renamedContent == previous)
+
+//@ spec
+//@ ghost var prevContent []byte
+//@ ghost var prevExisted bool
+//@ ghost var prevPath string
+//@ func readExistingFile
+//@   trusted
+//@   modifies prevContent, prevExisted, prevPath
+//@   ensures prevContent == result0 && prevExisted == result1 && prevPath == p
+//@ func parseReloadTimeout
+//@   trusted
+//@ func waitForAdminHealth
+//@   trusted
+//@ func validateAllowedKeys
+//@   trusted
+
+//@ func (*Server).toolConfigApply
+//@   requires s != nil
+//@   modifies *
+//@   preserves Server.*
+//@   calls writeFileAtomic requires [C20:writes_only_the_configured_path_with_parsed_and_compiled_content] arg0 == trim(s.ConfigPath) && arg0 != "" && compiledOKContent == arg1 && lastParsed == arg1
+//@   calls rollbackConfigFile requires [C20:rollback_only_the_configured_path_to_its_previous_content] arg0 == trim(s.ConfigPath) && arg0 != "" && prevPath == arg0 && arg1 == prevExisted && arg2 == prevContent
+//@   ensures [C20:at_most_forward_and_rollback_write] renames >= old(renames) && renames <= old(renames) + 2
